@@ -141,14 +141,9 @@ func ruleRecoverInstalled(c *Ctx, rule string) {
 					return
 				}
 				protect := strings.HasPrefix(n, "dynamic:") || strings.HasPrefix(n, "invoke:") || strings.HasSuffix(n, ".Handler") || strings.HasSuffix(n, ".handle") || strings.HasSuffix(n, ".serveContext")
-				if key == "mux.(*Group).ServeHTTP" {
-					// the routers recover for themselves; the group covers its own not-found call
-					protect = strings.HasPrefix(n, "dynamic:recv.call")
-				}
+				// (a Group protects everything it runs: the matchers are user code, and a router attached with Group.Add
+				// may have been built without a recovery option of its own — D31)
 				if !protect {
-					return
-				}
-				if fn != f && (strings.HasSuffix(n, ".serveContext") || strings.HasSuffix(n, ".Handler")) && key == "mux.(*Group).ServeHTTP" {
 					return
 				}
 				path := (&an.Query{Assume: assume, Deep: deepDefault, Target: func(t ssa.Instruction) bool { return t == in }, Block: isDefer}).Search(an.Entry(f))
